@@ -1,7 +1,8 @@
 """C20 - definition builds are deterministic, isolated and leave no residue.
 
 Four parts (DESIGN.md 5 C20), all compared with one reference table that is
-filled by building every definition once in a pristine process:
+filled by building every definition as the first thing in its own fresh
+process:
 
 (a) repetition (E1, NRT): every graph program of the C01 spaces below the bound
     is built several times from freshly created functions; all results equal.
@@ -528,7 +529,7 @@ def census_child():
     of its distinct outcomes under '@focus'."""
     import sys
     import faulthandler
-    faulthandler.dump_traceback_later(170, exit=True)
+    faulthandler.dump_traceback_later(900, exit=True)
     mode, order, tagbase, slice_of, repo, focus, repeat = sys.argv[1:8]
     only = len(sys.argv) > 8 and sys.argv[8] == 'only'
     if repo not in sys.path:
@@ -1044,7 +1045,7 @@ def _census(ctx, tagbase, slice_of, cands, refs):
     # that builds thousands of definitions arbitrarily slow: then the census
     # is given little time and its absence is a recorded cap, not an error
     proven = any(hidden_residue(k) for k in cands.small)
-    timeout = 45 if proven else 240
+    timeout = 45 if proven else 600
 
     def one(cfg):
         try:
@@ -1070,14 +1071,24 @@ def _census(ctx, tagbase, slice_of, cands, refs):
                     'repeat': 8, 'kind': kind, 'ref': a}
             cands.add(kind, case, None, 0, a, b, f'definition {k} built '
                       f'among the census items under {base_cfg}', len(k))
+    by_cfg = {tuple(c): r for c, r in zip(cfgs, results)}
     for cfg, got in zip(cfgs[1:], results[1:]):
-        for kind, iid, a, b in census_compare(base_cfg, base, cfg, got):
-            case = {'part': 'c', 'item': iid, 'a': base_cfg, 'b': cfg,
+        # partner = the configuration that differs in exactly one coordinate
+        mode, hs, order = cfg
+        if order == 'rev':
+            partner = [mode, hs, 'fwd']
+        elif hs != '0':
+            partner = [mode, '0', 'fwd']
+        else:
+            partner = base_cfg
+        pres = by_cfg[tuple(partner)]
+        for kind, iid, a, b in census_compare(partner, pres, cfg, got):
+            case = {'part': 'c', 'item': iid, 'a': partner, 'b': cfg,
                     'tagbase': tagbase, 'slice_of': slice_of,
                     'repeat': 8, 'kind': kind}
             size = (0 if iid.startswith('d:') else 10 ** 6) + len(iid) * 100
             cands.add(kind, case, None, 0, a, b,
-                      f'item {iid} under {base_cfg} vs {cfg}', size)
+                      f'item {iid} under {partner} vs {cfg}', size)
         ctx.evaluations += len(got)
         ctx.traces += len(got)
         ctx.transitions += len(got)
